@@ -1,6 +1,7 @@
 """C10, DES part: key_schedule == PC-2(rot(PC-1(key))) for every round and every interrupt_after_round (proved, N symbolic);
-_find_possible_keys / _convert_hypothesis_bits_into_keys / get_master_key: bounded stand-in (see c10_native), because their
-control flow branches on every key bit (2^48 paths) and is out of reach of path-based symbolic execution."""
+_convert_hypothesis_bits_into_keys: proved by structural induction on the recursion (props/c10_keys.py: the recursive call replaced by
+the function's own contract, generic head, tail result of symbolic length); _find_possible_keys (its 48-iteration loop branches on every
+round-key bit) and get_master_key: bounded stand-in (see c10_native)."""
 import z3
 from pyvc import core, symnp, solve, loader as L, harness as H, report as R, parallel as P
 from pyvc.core import SInt, SBV
@@ -70,6 +71,12 @@ def run(rep, tier, seed, timeout):
     units.append((None, True, 'int64'))
     def work(sub, iar, batch, dt): schedule_case(des, sub, iar, batch, dt, timeout)
     P.run_units(rep, work, units)
+    # key completion: _convert_hypothesis_bits_into_keys by structural induction (props/c10_keys.py)
+    from props import c10_keys as CK
+    ku = CK.units(tier); kgroups = [tuple(ku[i:i + 8]) for i in range(0, len(ku), 8)]
+    def kwork(sub, *group):
+        for kind, n in group: CK.work(des, sub, kind, n, timeout)
+    P.run_units(rep, kwork, kgroups)
     for kw in (dict(interrupt_after_round=16), dict(interrupt_after_round=-1)):
         def body():
             key = H.sym_bytes('K', (8,), 'uint8'); L.set_task(stubs={'scared._utils::_is_bytes_array': bytes_stub})
